@@ -105,6 +105,9 @@ def _lower(x):
 @_lower.register(Tensor)
 @_lower.register(Variable)
 def _lower_atom(x):
+    if isinstance(x, Tensor) and x.inputs:
+        # Programs hold raw arrays, which cannot represent named inputs.
+        raise NotImplementedError("TODO support Tensor constants with inputs")
     return x
 
 
